@@ -30,7 +30,7 @@ _OTHER_SEPARATORS = set('\r\x0b\x0c\x1c\x1d\x1e\x85  ')
 
 
 def in_domain(text):
-    return not (_OTHER_SEPARATORS & set(text)) and '\x00' not in text
+    return not (_OTHER_SEPARATORS & set(text))
 
 
 def split_lines(text):
